@@ -101,14 +101,14 @@ func makeInputs(r *rand.Rand, dir string, ntax int) *cmdInputs {
 	for _, nd := range allNodes(T)[1:] {
 		if !nd.IsTip() {
 			tn := nodeTipNames(nd)
-			if len(tn) >= 2 && len(tn) <= ntax-3 {
+			if len(tn) >= 3 && len(tn) <= ntax-3 {
 				clade = tn
 				break
 			}
 		}
 	}
 	if clade == nil {
-		clade = []string{modelTips(T)[0].Name}
+		clade = []string{modelTips(T)[0].Name, modelTips(T)[1].Name, modelTips(T)[2].Name}
 	}
 	in.files["og.txt"] = strings.Join(clade, "\n") + "\n"
 	in.files["og.args"] = strings.Join(clade, "\n")
@@ -277,7 +277,7 @@ var cmdTable = []cmdTmpl{
 	{Name: "annotate map", Args: []string{"annotate", "-i", "{t.nw}", "-m", "{annot.txt}"}},
 	{Name: "merge", Args: []string{"merge", "-i", "{tr.nw}", "-c", "{graft.nw}"}},
 	{Name: "merge stdin", Args: []string{"merge", "-i", "{tr.nw}"}, Stdin: "graft.nw"},
-	{Name: "graft", Args: []string{"graft", "-i", "{t.nw}", "-g", "{graft.nw}", "-l", "{@tipname.txt}"}},
+	{Name: "graft", Args: []string{"graft", "-i", "{t.nw}", "-c", "{graft.nw}", "-l", "{@tipname.txt}"}},
 	{Name: "subtree", Args: []string{"subtree", "-i", "{tr.nw}", "-n", "{@innername.txt}"}},
 	{Name: "nni", Args: []string{"nni", "-i", "{t2.nw}"}},
 	{Name: "divide", Args: []string{"divide", "-i", "{ts.nw}"}},
